@@ -22,7 +22,7 @@ use std::collections::{BTreeMap, BTreeSet};
 
 // ------------------------------------------------------------------------------ C02
 
-pub const C02_RULE: &str = "query histories on ONE long-lived MoveGenerator: operations Move/Special/Undo/Unwind/QueryMoves/QueryMovesOther (the side not to move, where the flipped position is consistent)/QueryAttacks/Transpose; in 30% of the histories board.turn() is never updated, as in count_positions (perft style); (undo the last four plies and replay them in a commuted order that reaches the same placement, so that which ply made the double step / lost the right differs between paths), on one engine board evolved by apply/undo; every move query is compared with the reference legal set and (every query on a position whose placement was already queried in a different state, and a slice of the others) with a brand-new generator on a from-scratch copy; every attack query with a brand-new generator on a from-scratch copy. Tree walks visit all nodes to a fixed depth in perft order on one generator and compare every node's answer with the reference. Non-trivial = the history queried one placement in two different (rights, ep) states, or a query was served from the cache after a transposition/undo detour; distinct = hash of the op sequence (histories) or position fingerprint (tree nodes).";
+pub const C02_RULE: &str = "query histories on ONE long-lived MoveGenerator: operations Move/Special/Undo/Unwind/QueryMoves/QueryMovesOther (the side not to move, where the flipped position is consistent)/QueryAttacks/Transpose/Excursion (a quiet piece move by each side and back, so the placement recurs with fewer rights or without the ep target); in 30% of the histories board.turn() is never updated, as in count_positions (perft style); (undo the last four plies and replay them in a commuted order that reaches the same placement, so that which ply made the double step / lost the right differs between paths), on one engine board evolved by apply/undo; every move query is compared with the reference legal set and (every query on a position whose placement was already queried in a different state, and a slice of the others) with a brand-new generator on a from-scratch copy; every attack query with a brand-new generator on a from-scratch copy. Tree walks visit all nodes to a fixed depth in perft order on one generator and compare every node's answer with the reference. Non-trivial = the history queried one placement in two different (rights, ep) states, or a query was served from the cache after a transposition/undo detour; distinct = hash of the op sequence (histories) or position fingerprint (tree nodes).";
 
 #[derive(Clone, Debug, Serialize, Deserialize)]
 pub enum QOp {
@@ -33,6 +33,9 @@ pub enum QOp {
     QueryMovesOther,
     QueryAttacks(bool),
     Transpose(u8),
+    /// out-and-back: a quiet piece move by each side, then both moves reversed - the placement
+    /// recurs, possibly with fewer castling rights and without the en-passant target
+    Excursion(u16, u16),
 }
 
 #[derive(Clone, Debug, Serialize, Deserialize)]
@@ -177,6 +180,43 @@ impl QState {
         }
         Ok(())
     }
+    fn excursion(&mut self, s1: u16, s2: u16) -> TestResult {
+        let mut out: Vec<Mv> = Vec::new();
+        for (i, sel) in [s1, s2].iter().enumerate() {
+            let legal = self.cur.legal_moves();
+            let quiet: Vec<Mv> = legal
+                .iter()
+                .filter(|m| m.kind == Kind::Std && m.cap.is_none() && self.cur.sq[m.from as usize].map(|x| x.0) != Some(P::Pawn))
+                .cloned()
+                .collect();
+            // prefer king / home-rook excursions while rights are held
+            let heavy: Vec<Mv> = quiet
+                .iter()
+                .filter(|m| self.cur.rights != 0 && matches!(m.from, A1 | H1 | A8 | H8 | E1 | E8))
+                .cloned()
+                .collect();
+            let pool = if !heavy.is_empty() && (sel & 1 == 0 || i == 0) { &heavy } else { &quiet };
+            if pool.is_empty() {
+                return Ok(());
+            }
+            let m = gen::select(pool, *sel);
+            self.play(&m)?;
+            out.push(m);
+        }
+        for m in out {
+            let legal = self.cur.legal_moves();
+            match legal.iter().find(|x| x.from == m.to && x.to == m.from && x.cap.is_none() && x.kind == Kind::Std) {
+                Some(back) => {
+                    let back = *back;
+                    self.play(&back)?;
+                }
+                None => return Ok(()),
+            }
+        }
+        self.detour = true;
+        self.query_moves(false)
+    }
+
     /// Undo the last four plies and replay them in a commuted order reaching the same placement.
     fn transpose(&mut self, variant: u8) -> TestResult {
         if self.stack.len() < 4 {
@@ -238,6 +278,7 @@ impl Prop for C02Histories {
             3 => Just(QOp::QueryMovesOther),
             3 => any::<bool>().prop_map(QOp::QueryAttacks),
             5 => (0u8..3).prop_map(QOp::Transpose),
+            4 => (any::<u16>(), any::<u16>()).prop_map(|(a, b)| QOp::Excursion(a, b)),
         ];
         (
             prop_oneof![
@@ -293,6 +334,11 @@ impl Prop for C02Histories {
                 QOp::QueryMovesOther => q.query_moves_other()?,
                 QOp::QueryAttacks(m) => q.query_attacks(*m)?,
                 QOp::Transpose(v) => q.transpose(*v)?,
+                QOp::Excursion(a, b) => {
+                    // the placement about to recur is queried first
+                    q.query_moves(false)?;
+                    q.excursion(*a, *b)?
+                }
             }
         }
         // final query as the property states it
